@@ -325,16 +325,11 @@ func (w *World) Resolve(q Query, current map[string]string) (string, bool) {
 		}
 		return "", false
 	case "prefix":
-		match := func(v string) bool {
-			if strings.Count(q.Arg, ".") == 0 {
-				return semver.Major(v) == q.Arg
-			}
-			return semver.MajorMinor(v) == q.Arg
-		}
-		if v := highest(vs, func(v string) bool { return isRelease(v) && match(v) }); v != "" {
-			return v, true
-		}
-		v := highest(vs, match)
+		// "path@vX" / "path@vX.Y" is a semver range query (query.go: "parses as a semver range
+		// query"): the highest version of that major that is at least vX.Y.0. The property does not
+		// fix a narrower meaning, so none is demanded here.
+		canon := semver.Canonical(q.Arg)
+		v := highest(vs, func(v string) bool { return semver.Compare(canon, v) <= 0 })
 		return v, v != ""
 	case "gt":
 		v := highest(vs, func(v string) bool { return semver.Compare(v, q.Arg) > 0 })
@@ -361,8 +356,12 @@ func (w *World) Resolve(q Query, current map[string]string) (string, bool) {
 
 // UpgradeTarget is the version "upgrade everything" stands for, for one project.
 func (w *World) UpgradeTarget(p, cur string) string {
-	v, ok := w.Resolve(Query{Path: p, Kind: "upgrade"}, map[string]string{p: cur})
-	if !ok {
+	// "upgrade all" keeps every project on its major version line (v0 and v1 are different
+	// lines for this purpose although they share a path): the least that must be reached is the
+	// highest release with the same semver major.
+	major := semver.Major(cur)
+	v := highest(w.TaggedVersions(p), func(v string) bool { return isRelease(v) && semver.Major(v) == major })
+	if v == "" || semver.Compare(cur, v) > 0 {
 		return cur
 	}
 	return v
